@@ -134,5 +134,20 @@ func (s *Sel) Hit() {
 
 func (s *Sel) Done() bool { return s.hit }
 
-// Go starts f as a new simulated task (used for rewritten go statements).
-var Go = func(f func()) { go f() }
+// Go replaces a go statement of the code under test: f becomes a new simulated task that
+// the scheduler interleaves with the others at their yield points. (The arguments of the
+// original call are evaluated when the task first runs, not at the go statement.)
+func Go(f func()) {
+	s := sim.S
+	if !sim.Active() || s == nil {
+		go f()
+		return
+	}
+	sim.Yield()
+	id := s.Spawn("go")
+	go func() {
+		s.TaskBegin(id)
+		defer s.TaskEnd(id)
+		f()
+	}()
+}
